@@ -232,6 +232,10 @@ def gen_workload(tape):
     if tape.flag("unreadable", 1, 5):
         side, k = tape.pick(allfiles, "unreadable_file")
         w["unreadable"] = _relpath(w, side, k)
+    # mostly with skip_file_errors (what the property speaks about); sometimes
+    # without: then the worker dies - only termination, soundness and
+    # exactly-once are demanded in that case
+    w["skip_errors"] = w["unreadable"] is None or not tape.flag("noskip", 1, 4)
     w["queue_delay"] = tape.pick([0, 1, 2], "qdelay")   # 0 none, 1 some, 2 many
     w["clock_jump"] = tape.flag("clockjump", 1, 6)
     stalls = {}
@@ -399,7 +403,7 @@ def run_one(tape, only=None):
                   "m": f"{md * 1000.0} m"}[w["max_distance_as"]]
         kwargs = dict(start=start, end=end, processes=w["processes"],
                       bundle=w["bundle"], max_interval=mi_arg, max_distance=md_arg,
-                      skip_file_errors=w["unreadable"] is not None)
+                      skip_file_errors=w["unreadable"] is not None and w["skip_errors"])
         if w["clock_jump"]:
             def jump():
                 st.fire("clock_jump")
@@ -535,7 +539,18 @@ def _oracle(w, st, sim, outcome, policy, out_fs, procs, queues):
                       f"{type(exc).__name__}: {str(exc)[:300]}")], info
     # children that crashed
     crashed = [p for p in procs if p.exitcode not in (0, None)]
-    if crashed or outcome["crashed"]:
+    tolerate_crash = False
+    if w["unreadable"] and not w["skip_errors"] and st.fired.get("unreadable_file"):
+        # an unreadable file without skip_file_errors: the worker must die with
+        # that error and the parent must still terminate (it did, we are here)
+        tolerate_crash = True
+        sim.probe("worker_died_of_unreadable_file")
+        bad = [p for p in crashed if not isinstance(p.error, InjectedReadError)]
+        if bad or not crashed:
+            V.append(_viol("C05/unreadable-without-skip",
+                           f"expected the affected worker(s) to end with the read "
+                           f"error; crashed: {[repr(p.error)[:80] for p in crashed]}"))
+    if (crashed or outcome["crashed"]) and not tolerate_crash:
         err = crashed[0].error if crashed else None
         V.append(_viol(
             f"C05/process-crashed/{type(err).__name__ if err else 'unknown'}",
@@ -599,6 +614,8 @@ def _oracle(w, st, sim, outcome, policy, out_fs, procs, queues):
                        f"{len(extra)} pair(s) reported that the brute force does "
                        f"not find, e.g. {sorted(extra)[:5]}"))
     missing = exp - fset
+    if tolerate_crash:
+        missing = set()          # whatever the dead worker had left is lost
     if missing:
         # confirmed cause: two results written to the same output file name
         over = {}
